@@ -482,7 +482,20 @@ class Enc:
         self.allow_indexed = allow_indexed
         self.allow_ndnumpy = allow_ndnumpy
 
+    LAST = None      # (values, T, layout) of the most recent top-level encode (used by the metamorphic C02 family)
+    _depth = 0
+
     def encode(self, values, T, under_option=False):
+        Enc._depth += 1
+        try:
+            lay = self._encode_top(values, T, under_option)
+        finally:
+            Enc._depth -= 1
+        if Enc._depth == 0:
+            Enc.LAST = (values, T, lay)
+        return lay
+
+    def _encode_top(self, values, T, under_option=False):
         rng = self.rng
         node = self._encode(values, T)
         if (self.style == "random" and self.allow_indexed and not under_option and T[0] != "option"
@@ -588,7 +601,8 @@ class Enc:
                 if rnd and rng.random() < 0.3:
                     # regular type but variable-length node classes are a different TYPE; keep RegularArray
                     pass
-                extra = []
+                # (the length of a RegularArray is len(content) // size: an unreachable tail must be shorter than size)
+                extra = self._filler(flat, T[1], rng.randint(0, size - 1)) if (rnd and size > 1 and rng.random() < 0.3) else []
                 content = self.encode(flat + extra, T[1])
                 return RG(size, content, n if size == 0 else 0)
             # variable-length lists
